@@ -11,7 +11,7 @@
 From XcpModel Require Import Base Meta Walker Ops ConcBlock ConcFile ConcOutcome.
 From XcpProofs Require Import OpsProofs ConcBlockProofs ConcFileProofs ConcOutcomeProofs.
 From XcpModel Require Import Extracted.
-From XcpProofs Require Import ExtractedOk.
+(* (translator tie: per-topic files, see below) *)
 From Coq Require Import Permutation.
 From XcpProofs Require Import PinnedSource.
 From XcpPins Require Import Pin_operations_finalise_copy Pin_operations_drop Pin_common_sync.
@@ -110,3 +110,13 @@ Print Assumptions C18_fsync_last_in_every_schedule.
 Print Assumptions C18_src_pin_operations_finalise_copy.
 Print Assumptions C18_src_pin_operations_drop.
 Print Assumptions C18_src_pin_common_sync.
+
+(* ---- further glue on this property's path, pinned token for token (an edit re-opens the obligation; the run then
+   looks for a failing input) ---- *)
+From XcpPins Require Import Pin_common_copy_permissions Pin_common_copy_xattr.
+Theorem C18_src_pin_common_copy_permissions : pin_unchanged name_common_copy_permissions.
+Proof. exact pin_common_copy_permissions. Qed.
+Theorem C18_src_pin_common_copy_xattr : pin_unchanged name_common_copy_xattr.
+Proof. exact pin_common_copy_xattr. Qed.
+Print Assumptions C18_src_pin_common_copy_permissions.
+Print Assumptions C18_src_pin_common_copy_xattr.
